@@ -422,6 +422,20 @@ fn run(ctx: &mut Ctx) {
                 }
             };
             let base = bag_of_rows(&base_rows);
+            let mut oracle_is_baseline = false;
+            if base != oracle {
+                // Not this property's business when it is the recorded C01 finding (the graph
+                // variable is bound before the filters of its own GRAPH block): the plans are
+                // then compared with one another, with the baseline as the reference.
+                let prebound = kvk::msparql::Sem { graph_variable_prebound: true, ..Default::default() };
+                if let Ok(alt) = Ev::with_sem(&snap, &q, prebound).eval_group(&q.group, &None) {
+                    if bag_of_rows(&alt) == base {
+                        ctx.count("baseline_shows_the_recorded_c01_finding(graph_variable_prebound)_plans_compared_among_themselves", 1);
+                        oracle_is_baseline = true;
+                    }
+                }
+            }
+            let oracle = if oracle_is_baseline { base.clone() } else { oracle };
             if base != oracle {
                 ctx.violation(json!({"kind": "baseline_plan_differs_from_sparql_algebra"}), witness(&case, "baseline (optimizer's own plan, fresh statistics)", json!({"plan": format!("{:?}", plan).chars().take(1500).collect::<String>()}), &oracle, &base));
                 continue;
